@@ -131,7 +131,8 @@ def make_form(rng, i):
                         col = rng.choice(ecs) if ecs else "name"
                         cells["choice_filter"] = f"{col} != 'cf.{nm}'"
                     if rng.random() < 0.3 and st != "rank":
-                        cells["parameters"] = rng.choice(["randomize=true", "randomize=true seed=42", "randomize=true seed=${seedq}", "randomize=false"])
+                        cells["parameters"] = rng.choice(["randomize=true", "randomize=true seed=42", "randomize=true seed=${seedq}", "randomize=false",
+                                                          "randomize=true seed=${seedq}+1", "randomize=true, seed=${seedq}*1000+${seedq}", "randomize=true; seed=7-${seedq}"])
             rows.append(Row("q", t, nm, cells, meta=meta))
         elif x < 0.65:
             ext = rng.choice(["csv", "xml", "geojson"])
@@ -207,6 +208,8 @@ def make_form(rng, i):
             f.external_choices.append(c)
         if rng.random() < 0.5:
             f.meta["dict_key_order"] = rng.randrange(1, 10**6)
+        elif rng.random() < 0.5:
+            f.meta["ext_list_space"] = rng.choice(["list name", "list name", "List Name"])
     return f
 
 
@@ -225,6 +228,10 @@ def to_sheets(form):
                 if q_:
                     out.append(q_.pop(0))
         sheets["choices"] = (h, out)
+    if form.meta.get("ext_list_space") and "external_choices" in sheets:
+        # the older documented spelling of the list column ('list name'), on a sheet whose other headers are all plain
+        h, rows = sheets["external_choices"]
+        sheets["external_choices"] = ([form.meta["ext_list_space"] if x == "list_name" else x for x in h], rows)
     return sheets
 
 
@@ -476,6 +483,14 @@ def check(ctx, form, sig, sample=False):
             ctx.viol("select:seed-presence", f"{e.path}: seed {prm.get('seed')!r} vs nodeset {ns!r}", wit())
         elif want_rand and seed and not prm["seed"].startswith("${") and seed.strip() != prm["seed"]:
             ctx.viol("select:seed-value", f"{e.path}: seed {seed!r}, expected {prm['seed']!r}", wit())
+        elif want_rand and seed and "${" in prm["seed"]:
+            # a seed computed from answers: the expression as written, every ${seedq} replaced by the question's path
+            from .C05 import value_pattern
+            ctx.ctr("computed_seeds_checked")
+            vp_ = value_pattern(prm["seed"])  # blanks at either end of the seed are not significant (the nodeset parser above eats them)
+            ms = next((m_ for m_ in (vp_.match(a_ + seed.strip() + b_) for a_ in ("", " ") for b_ in ("", " ")) if m_), None)
+            if ms is None or any(not g.endswith("/seedq") for g in ms.groups()):
+                ctx.viol("select:seed-expression", f"{e.path}: seed {seed!r} in the nodeset, parameters say seed={prm['seed']!r}", wit())
         vr = its.find(xf.q(xf.XF, "value")).get("ref")
         lr = its.find(xf.q(xf.XF, "label")).get("ref")
         if r.meta.get("list"):
@@ -495,6 +510,7 @@ def check(ctx, form, sig, sample=False):
         else:
             rows = list(csv.reader(io.StringIO(o.itemsets)))
             h, want_rows = sheets["external_choices"]
+            h = ["list_name" if str(x).lower() == "list name" else x for x in h]  # the CSV is read by clients under the canonical header
             if rows[0] != list(h):
                 ctx.viol("csv:header", f"CSV header {rows[0]}, sheet headers {list(h)}", wit())
             elif len(rows) - 1 != len(want_rows):
